@@ -176,6 +176,15 @@ def c172(ctx):
     f = ctx.fn(R, "listfree::List::prepend")
     if f:
         sn = ctx.calls(R, f, r"listfree::node_ptr::set_next$")
+        # whatever makes the node reachable from List.head (compare_exchange, swap, store, fetch_update) comes after its link is set
+        pub = [p_ for p_ in P.call_points(f, r"Atomic\w*::(compare_exchange|compare_exchange_weak|swap|store|fetch_update)$")
+               if any(s_["k"] == "field" and s_["f"] == "head" for s_ in P.origins(f, P.term_at(f, p_)["args"][0]))]
+        ctx.floor(R, "List::prepend publication of the node", len(pub), 1)
+        for p_ in pub:
+            bad = P.order(f, sn, [p_], cycles=True)
+            ctx.check(R, f, "link-before-publish", not bad, "the node's next pointer is stored before %s makes it reachable from head" % P.short(callee_skey(P.term_at(f, p_))),
+                      "List::prepend makes the node reachable from head (%s) before its next pointer is set: an iteration that starts in that window "
+                      "ends at the half-linked node and misses every older element" % P.short(callee_skey(P.term_at(f, p_))), pt=p_)
         cs = ctx.calls(R, f, r"Atomic\w*::compare_exchange$")
         ctx.order_chain(R, f, [("set_next(node, head)", sn), ("compare_exchange(head, node)", cs)], cycles=True)
         for p in cs:
